@@ -157,6 +157,10 @@ def run(prop):
     for i, (bp, rel_, old_, new_, exp_) in enumerate(getattr(v, "SEEDED_ON", {}).get(prop, [])):
         jobs.append(("seeded", 1000 + i, rel_, old_, new_, exp_, bp))
         seeded = list(seeded) + [None]
+    # ... and the kept refactorings themselves must leave the check silent
+    for i, (bp, rel_) in enumerate(sorted(set((x[0], x[1]) for x in getattr(v, "SEEDED_ON", {}).get(prop, [])))):
+        jobs.append(("benign", 2000 + i, rel_, "", "", None, bp))
+        benign = list(benign) + [None]
     seed = int(os.environ.get("VERIF_SEED", "0") or 0)
     if seed:
         import random
